@@ -33,3 +33,8 @@ pub mod c07 {
     use super::*;
     include!("c07.rs");
 }
+pub mod c08 {
+    #[allow(unused_imports)]
+    use super::*;
+    include!("c08.rs");
+}
